@@ -142,6 +142,9 @@ func init() {
 		}
 		return args[1]
 	}
+	harnessAPI["vB2I"] = func(r *Run, fr *frame, args []Value) Value {
+		return r.tt.Ite(args[0].(*Term), r.tt.Const(64, 1), r.tt.Const(64, 0))
+	}
 	harnessAPI["vYield"] = func(r *Run, fr *frame, args []Value) Value {
 		r.yield(fr, "vYield")
 		return nil
